@@ -9,3 +9,4 @@ import TlxVerif.Props.C06
 #print axioms TlxVerif.C06.small_input_untouched
 #print axioms TlxVerif.C06.unstable_mergesort_sorted_perm
 #print axioms TlxVerif.C06.merge_back_all_schedules
+#print axioms TlxVerif.C06.model_refines_spec
